@@ -693,10 +693,40 @@ class Program:
             # decorator factories etc: f(...)(...)
             cs.method = "<call-result>"
             return cs
-        if isinstance(fn, ast.Subscript):
-            cs.method = "<call-subscript>"
+        if isinstance(fn, ast.Subscript) or (isinstance(fn, ast.Call) and isinstance(fn.func, ast.Attribute) and fn.func.attr == "get"):
+            # TABLE[key](...) / TABLE.get(key)(...) with TABLE a local (or module constant) bound to a literal table of
+            # functions: may-call, every function of the table
+            base = fn.value if isinstance(fn, ast.Subscript) else fn.func.value
+            if isinstance(base, ast.Name):
+                cands = self._table_functions(f, base)
+                if cands:
+                    cs.callees.extend(cands)
+                    return cs
+            cs.method = "<call-subscript>" if isinstance(fn, ast.Subscript) else "<call-result>"
             return cs
         return cs
+
+    def _table_functions(self, f: Func, base: ast.Name):
+        """Package functions held by a literal table (dict / list / tuple) that `base` names: a local of ``f`` bound
+        once to the literal, or a module-level constant."""
+        lit = None
+        r = self.resolve_expr(f, f.module, base)
+        if r and r[0] == "local":
+            defs = [n.value for n in f.own_nodes() if isinstance(n, ast.Assign) and len(n.targets) == 1 and isinstance(n.targets[0], ast.Name) and n.targets[0].id == base.id]
+            stores = [n for n in f.own_nodes() if isinstance(n, ast.Name) and n.id == base.id and isinstance(n.ctx, ast.Store)]
+            if len(defs) == 1 and len(stores) == 1:
+                lit = defs[0]
+        elif r and r[0] == "global" and len(r) > 3 and getattr(r[3], "value", None) is not None:
+            lit = r[3].value
+        vals = list(lit.values) if isinstance(lit, ast.Dict) else (list(lit.elts) if isinstance(lit, (ast.Tuple, ast.List)) else [])
+        out, seen = [], set()
+        for v in vals:
+            if isinstance(v, ast.Name):
+                rr = self.resolve_expr(f, f.module, v)
+                if rr and rr[0] == "func" and rr[1].qualname not in seen:
+                    seen.add(rr[1].qualname)
+                    out.append(rr[1])
+        return out
 
     def _local_function_values(self, f: Func, name: str, depth=0):
         """Package functions a local of ``f`` may hold: assigned from a function name, taken from a literal table
